@@ -318,7 +318,7 @@ func encRun(op *encOp) (line []byte, nWrites int, panicMsg string) {
 	sink := &captureSink{}
 	defer func() {
 		if e := recover(); e != nil {
-			panicMsg = fmt.Sprint(e)
+			panicMsg = "panic: " + fmt.Sprint(e)
 		}
 	}()
 	core := zapcore.NewCore(enc, sink, zapcore.Level(-128))
